@@ -26,6 +26,21 @@ class Stubs:
         st.amp_by_time = self._amp
         st.dual_threshold = self._dual
 
+    def _same_call(self, first, sig, fs, f_range):
+        """('ratio',) contract: same samples and the same f/fs ratios (cross-multiplied, so the
+        comparison stays linear when one side is concrete) -> the library returns the same output."""
+        ctx = self.ctx
+        if len(first['sig']) != len(sig):
+            return False
+        if not ctx.truth(ctx.conj([ctx.eq(a, b) for a, b in zip(first['sig'], ctx.tolist(sig))])):
+            return False
+        fr0, fr1 = first['f_range'], f_range
+        try:
+            ok = ctx.conj([fr1[0] * first['fs'] == fr0[0] * fs, fr1[1] * first['fs'] == fr0[1] * fs])
+        except TypeError:
+            return False
+        return ctx.truth(ok)
+
     def _related(self, store, transform, fresh):
         """first call: fresh values; later calls under a relational contract: transformed values."""
         if self.relate is not None and store:
@@ -46,6 +61,10 @@ class Stubs:
                 out = [-v for v in self.filt[0]['out']]
             elif self.relate[0] == 'scale':
                 out = [self.relate[1] * v for v in self.filt[0]['out']]
+            elif self.relate[0] == 'ratio':
+                same = self._same_call(self.filt[0], sig, fs, f_range) and self.filt[0]['kw'] == kw \
+                    and self.filt[0]['pass_type'] == pass_type
+                out = list(self.filt[0]['out']) if same else fresh()
             else:
                 out = list(self.filt[0]['out'])
         else:
@@ -65,7 +84,10 @@ class Stubs:
         ctx = self.ctx
         k = len(self.amp)
         n = len(sig)
-        if self.relate is not None and self.amp and len(self.amp[0]['out']) == n:
+        use_first = self.relate is not None and self.amp and len(self.amp[0]['out']) == n
+        if use_first and self.relate[0] == 'ratio':
+            use_first = self._same_call(self.amp[0], sig, fs, f_range) and self.amp[0]['kw'] == kw
+        if use_first:
             if self.relate[0] == 'scale':
                 out = [self.relate[1] * v for v in self.amp[0]['out']]
             else:
@@ -83,7 +105,13 @@ class Stubs:
         ctx = self.ctx
         k = len(self.dual)
         n = len(sig)
-        if self.relate is not None and self.dual and len(self.dual[0]['out']) == n:
+        use_first = self.relate is not None and self.dual and len(self.dual[0]['out']) == n
+        if use_first and self.relate[0] == 'ratio':
+            d0 = self.dual[0]
+            use_first = self._same_call(d0, sig, fs, f_range) and d0['kw'] == kw and \
+                tuple(d0['dual_thresh']) == tuple(dual_thresh) and d0['min_burst_duration'] is min_burst_duration \
+                and ctx.truth(d0['min_n_cycles'] == min_n_cycles)
+        if use_first:
             out = list(self.dual[0]['out'])
         else:
             out = [ctx.boolean('dt%d_%d' % (k, i)) for i in range(n)]
